@@ -1,6 +1,7 @@
 (* C05 — progress resumes once a quorum of honest replicas is synchronous (PARTIAL). *)
 From Coq Require Import List NArith ZArith.
 From HS Require Import Quorum.QuorumModel Protocol.Core Protocol.Chained Protocol.ChainedExec Protocol.ChainedExecProofs Protocol.SyncRun Protocol.SyncProof.
+From HS Require Protocol.Resume.
 Import ListNotations.
 Open Scope N_scope.
 
@@ -54,6 +55,50 @@ Proof.
 Qed.
 Print Assumptions C05_commit_after_chain_partial.
 
+(* Progress can resume from ANY reachable state (protocol level, unbounded, both rule sets, every
+   membership with at most f Byzantine members).  Whatever happened before -- partitions, loss,
+   Byzantine behaviour, crashes (replicas outside Q never act below) -- for every quorum Q of honest
+   members there is a continuation [steps s s'] of exactly three views (the commit-chain length)
+   in which only Q acts: one new block per view on top of the highest lock held in Q, each voted by
+   all of Q; afterwards the three new blocks form a certified three-chain and EVERY member of Q
+   has committed a block that did not exist in s.  Hence the vote rule, the lock discipline and the
+   commit rule can never wedge the protocol.  PARTIAL with respect to the property: the
+   continuation is shown to exist; that the pacemaker (timeouts, TC/AggQC, new-view) actually
+   drives a synchronous quorum along it is what the harness checks on the implementation. *)
+Theorem C05_progress_can_resume_from_any_state_partial :
+  forall rs replicas byz genesis,
+    config_ok replicas byz genesis = true ->
+    forall (Q : list rid) s,
+      Chained.reach rs (member replicas) (honest byz) (qsize replicas) genesis s ->
+      NoDup Q -> (qsize replicas <= length Q)%nat ->
+      (forall r, In r Q -> member replicas r = true /\ honest byz r = true) ->
+      exists s' B1 B2 B3,
+        Resume.steps rs (member replicas) (honest byz) (qsize replicas) genesis s s' /\
+        Chained.U s (b_hash B1) = None /\
+        Chained.three_chain (member replicas) (qsize replicas) genesis s' B1 B2 B3 /\
+        forall r, In r Q ->
+          exists l', log (Chained.loc genesis s' r) = log (Chained.loc genesis s r) ++ l' ++ [B1].
+Proof.
+  intros rs replicas byz genesis Hc.
+  destruct (cfg_parts replicas byz genesis Hc) as (_ & _ & _ & Gv & Gp & Gq).
+  exact (Resume.progress_resumes_from_any_state rs (member replicas) (honest byz) (qsize replicas)
+           (quorum_inter_inst replicas byz genesis Hc) (quorum_has_honest_inst replicas byz genesis Hc)
+           genesis Gv Gp Gq).
+Qed.
+Print Assumptions C05_progress_can_resume_from_any_state_partial.
+
+(* [steps] is a path of the abstract system: the continuation stays reachable (so C01 applies) *)
+Theorem C05_continuation_is_reachable :
+  forall rs replicas byz genesis s s',
+    Chained.reach rs (member replicas) (honest byz) (qsize replicas) genesis s ->
+    Resume.steps rs (member replicas) (honest byz) (qsize replicas) genesis s s' ->
+    Chained.reach rs (member replicas) (honest byz) (qsize replicas) genesis s'.
+Proof.
+  intros rs replicas byz genesis.
+  exact (Resume.steps_reach rs (member replicas) (honest byz) (qsize replicas) genesis).
+Qed.
+Print Assumptions C05_continuation_is_reachable.
+
 (* Fault-free synchronous run, unbounded: for either ruleset, every cluster size n >= 1 (replicas
    1..n, none faulty) and every number of views k, the abstract system has a reachable state — the
    run in which in each view the leader's block on top of the previous one is voted by everybody —
@@ -79,7 +124,7 @@ Theorem C05_sync_events_accepted_partial :
 Proof. vm_compute. reflexivity. Qed.
 Print Assumptions C05_sync_events_accepted_partial.
 
-(* NOT PROVED (named gaps): recover_any — from an arbitrary reachable post-partition state the
+(* NOT PROVED (named gaps): recover_any — that from an arbitrary reachable post-partition state the
    pacemaker (timeouts, view catch-up by one view per accepted certificate) brings a live quorum
    into a common view within a bounded number of views; real timers; fast-hotstuff, whose
    aggregate timeout rule ignores plain QCs so that no view ends without a timeout (known finding). *)
